@@ -48,6 +48,10 @@ func NewSketch(exact bool, m mapping.IndexMapping, sp gen.StoreSpec) Sketch {
 		e := ddsketch.NewDDSketchWithExactSummaryStatistics(m, sp.Provider())
 		return Sketch{Exact: true, E: e, P: e.DDSketch}
 	}
+	if sp.Kind%2 == 0 {
+		// both public constructors are in use
+		return Sketch{P: ddsketch.NewDDSketchFromStoreProvider(m, sp.Provider())}
+	}
 	return Sketch{P: ddsketch.NewDDSketch(m, sp.New(), sp.New())}
 }
 
